@@ -9,7 +9,6 @@ import (
 	"golang.org/x/tools/go/ssa"
 )
 
-func runSelfTests(id, dir string) []SelfTestResult { return nil }
 
 func cmdDiscover(args []string) int {
 	if len(args) < 1 {
